@@ -4,6 +4,7 @@ C16 helper lemmas: executor id bookkeeping (`ExecOk`), inversion of `step`, and 
 Core Lean only.
 -/
 import ForML.Model.Serving
+import ForML.Lemmas.C16Worker
 namespace ForML.Serving
 
 structure ExecOk (e : Exec) : Prop where
@@ -89,9 +90,9 @@ theorem ExecOk.take {e : Exec} (h : ExecOk e) (w : Nat) (t : Task) (q : List Tas
   simp only [inflight, hq, List.map_cons, List.append_assoc, List.cons_append]
   exact List.perm_middle
 
-theorem ExecOk.finish {e : Exec} (h : ExecOk e) (w : Nat) (t : Task) (o : Outcome) (b : Bool)
+theorem ExecOk.finish {e : Exec} (h : ExecOk e) (w : Nat) (t : Task) (o : Outcome) (b : Bool) (cr : Nat → Carry)
     (hm : (w, t) ∈ e.held) :
-    ExecOk { e with held := e.held.erase (w, t), resultQ := e.resultQ ++ [⟨t.id, o⟩], stopped := b } := by
+    ExecOk { e with held := e.held.erase (w, t), resultQ := e.resultQ ++ [⟨t.id, o⟩], stopped := b, carry := cr } := by
   refine h.shuffle rfl rfl ?_
   simp only [inflight, List.map_append, List.map_cons, List.map_nil, List.append_assoc]
   have p : (e.held.map (·.2.id)).Perm (t.id :: (e.held.erase (w, t)).map (·.2.id)) :=
@@ -196,8 +197,10 @@ theorem step_take {i w : Nat} (h : step cfg s (.take i w) = some s') :
 theorem step_finish {i w : Nat} (h : step cfg s (.finish i w) = some s') :
     ∃ t, (s.execs i).held.lookup w = some t ∧
       s' = { s with execs := upd s.execs i { s.execs i with
-        held := (s.execs i).held.erase (w, t), resultQ := (s.execs i).resultQ ++ [⟨t.id, runModel i t.entry⟩],
-        stopped := (s.execs i).stopped || decide (t.entry.kind = .fatal) } } := by
+        held := (s.execs i).held.erase (w, t),
+        resultQ := (s.execs i).resultQ ++ [⟨t.id, (workerCall cfg.reset i (cfg.fanout i) ((s.execs i).carry w) t.entry).1⟩],
+        stopped := (s.execs i).stopped || decide (t.entry.kind = .fatal),
+        carry := upd (s.execs i).carry w (workerCall cfg.reset i (cfg.fanout i) ((s.execs i).carry w) t.entry).2 } } := by
   simp only [step] at h
   split at h
   · cases h
@@ -207,12 +210,12 @@ theorem step_deliver {i : Nat} (h : step cfg s (.deliver i) = some s') :
     (s.execs i).stopped = false ∧ ∃ r q, (s.execs i).resultQ = r :: q ∧
       (((s.execs i).pending.lookup r.id = none ∧
           s' = { s with execs := upd s.execs i { s.execs i with resultQ := q, stopped := true } })
-       ∨ (∃ c err, (s.execs i).pending.lookup r.id = some c ∧ r.out = .error err ∧
+       ∨ (∃ c err, (s.execs i).pending.lookup r.id = some c ∧ r.out.err? = some err ∧
           s' = { answer s c (.error err) with
             execs := upd s.execs i { s.execs i with resultQ := q, pending := (s.execs i).pending.erase (r.id, c) } })
-       ∨ (∃ c vi vp, (s.execs i).pending.lookup r.id = some c ∧ r.out = .value vi vp ∧
+       ∨ (∃ c, (s.execs i).pending.lookup r.id = some c ∧ r.out.err? = none ∧
           s' = { s with
-            phase := upd s.phase c (.responding (.value vi vp))
+            phase := upd s.phase c (.responding r.out)
             execs := upd s.execs i { s.execs i with resultQ := q, pending := (s.execs i).pending.erase (r.id, c) } })) := by
   simp only [step] at h
   split at h
@@ -228,7 +231,7 @@ theorem step_deliver {i : Nat} (h : step cfg s (.deliver i) = some s') :
       · rename_i c hl
         split at h
         · rename_i err ho; cases h; exact Or.inr (Or.inl ⟨c, err, hl, ho, rfl⟩)
-        · rename_i vi vp ho; cases h; exact Or.inr (Or.inr ⟨c, vi, vp, hl, ho, rfl⟩)
+        · rename_i ho; cases h; exact Or.inr (Or.inr ⟨c, hl, ho, rfl⟩)
 
 theorem step_respond {c : Nat} (h : step cfg s (.respond c) = some s') :
     ∃ o, s.phase c = .responding o ∧ s' = answer s c (encode cfg c o) := by
@@ -262,10 +265,10 @@ theorem execOk_step (a : Step) (h : ∀ i, ExecOk (s.execs i)) (hs : step cfg s 
   | finish i w =>
     obtain ⟨t, ht, rfl⟩ := step_finish hs
     simp only [upd]; split
-    · exact (h i).finish w t _ _ (lookup_mem ht)
+    · exact (h i).finish w t _ _ _ (lookup_mem ht)
     · exact h j
   | deliver i =>
-    obtain ⟨_, r, q, hq, ⟨hl, rfl⟩ | ⟨c, err, hl, _, rfl⟩ | ⟨c, vi, vp, hl, _, rfl⟩⟩ := step_deliver hs
+    obtain ⟨_, r, q, hq, ⟨hl, rfl⟩ | ⟨c, err, hl, _, rfl⟩ | ⟨c, hl, _, rfl⟩⟩ := step_deliver hs
     · -- KeyError branch: impossible, the result's id is in flight hence pending
       exfalso
       have : r.id ∈ inflight (s.execs i) := by simp [inflight, hq]
@@ -343,20 +346,20 @@ structure InvC (cfg : Config) (s : State) : Prop where
   ans_done : ∀ c o, (c, o) ∈ s.answers → s.phase c = .done
   ans_nodup : (s.answers.map (·.1)).Nodup
   ans_ok : ∀ c o, (c, o) ∈ s.answers → o = expected cfg c ∨ (o = .error .missingApp ∧ cfg.locked = false)
-    ∨ (o = .error .notRunning ∧ hasFatal cfg = true)
+    ∨ (o = .error .notRunning ∧ hasFatal cfg = true) ∨ cfg.reset ≠ .always
   pend_phase : ∀ i id c, (id, c) ∈ (s.execs i).pending → s.phase c = .submitted i id
   pend_exp : ∀ i id c, (id, c) ∈ (s.execs i).pending →
-    expected cfg c = finalOf cfg c (runModel i (entryOf cfg c)) ∧ i = cfg.select (spec cfg c).app
+    expected cfg c = finalOf cfg c (runInst cfg i (entryOf cfg c)) ∧ i = cfg.select (spec cfg c).app
   sub_pend : ∀ c i id, s.phase c = .submitted i id → (id, c) ∈ (s.execs i).pending
   task_data : ∀ i t c, (t ∈ (s.execs i).taskQ ∨ t ∈ (s.execs i).held.map (·.2)) →
     (t.id, c) ∈ (s.execs i).pending → t.entry = entryOf cfg c
-  res_data : ∀ i r c, r ∈ (s.execs i).resultQ → (r.id, c) ∈ (s.execs i).pending →
-    r.out = runModel i (entryOf cfg c)
+  res_data : cfg.reset = .always → ∀ i r c, r ∈ (s.execs i).resultQ → (r.id, c) ∈ (s.execs i).pending →
+    r.out = runInst cfg i (entryOf cfg c)
   stop_fatal : ∀ i, (s.execs i).stopped = true → hasFatal cfg = true
   arrived_lt : ∀ c, s.phase c ≠ .fresh → c < cfg.callers.length
   done_ans : ∀ c, s.phase c = .done → ∃ o, (c, o) ∈ s.answers
   held_lt : ∀ i w t, (w, t) ∈ (s.execs i).held → w < cfg.workers
-  resp_ok : ∀ c o, s.phase c = .responding o → encode cfg c o = expected cfg c
+  resp_ok : cfg.reset = .always → ∀ c o, s.phase c = .responding o → encode cfg c o = expected cfg c
 
 theorem InvC.init : InvC cfg Serving.init := by
   constructor <;> simp [Serving.init]
@@ -375,7 +378,7 @@ theorem InvC.answered (h : InvC cfg s) (c : Nat) (o : Outcome)
     (he : s'.execs = s.execs) (ha : s'.answers = (c, o) :: s.answers) (hp : s'.phase = upd s.phase c .done)
     (h0 : ∀ i id, s.phase c ≠ .submitted i id) (h1 : s.phase c ≠ .done) (h3 : c < cfg.callers.length)
     (ho : o = expected cfg c ∨ (o = .error .missingApp ∧ cfg.locked = false)
-      ∨ (o = .error .notRunning ∧ hasFatal cfg = true)) : InvC cfg s' := by
+      ∨ (o = .error .notRunning ∧ hasFatal cfg = true) ∨ cfg.reset ≠ .always) : InvC cfg s' := by
   obtain ⟨a1, a2, a3, a4, a5, a6, a7, a8, a9, a10, a11, a12, a13⟩ := h
   constructor <;> simp only [he, ha, hp, upd] <;> grind
 
@@ -390,7 +393,7 @@ theorem InvC.submit (h : InvC cfg s) (hE : ∀ i, ExecOk (s.execs i)) (c : Nat)
             taskQ := (s.execs (cfg.select (spec cfg c).app)).taskQ ++ [⟨(s.execs (cfg.select (spec cfg c).app)).next, entryOf cfg c⟩] } } := by
   obtain ⟨a1, a2, a3, a4, a5, a6, a7, a8, a9, a10, a11, a12, a13⟩ := h
   generalize hi : cfg.select (spec cfg c).app = i at *
-  have hx : expected cfg c = finalOf cfg c (runModel i (entryOf cfg c)) := by simp [expected, hk, hb, hi]
+  have hx : expected cfg c = finalOf cfg c (runInst cfg i (entryOf cfg c)) := by simp [expected, hk, hb, hi]
   have e1 := (hE i).keys_lt
   have e2 := (hE i).fl_keys
   have fresh : ∀ c', ((s.execs i).next, c') ∉ (s.execs i).pending := by
@@ -429,11 +432,11 @@ theorem mem_inflight_held {e : Exec} {w : Nat} {t : Task} (h : (w, t) ∈ e.held
 theorem mem_keys_iff {e : Exec} {id : Nat} : id ∈ keys e ↔ ∃ c, (id, c) ∈ e.pending := by
   simp [keys]
 
-theorem InvC.finish (h : InvC cfg s) (hE : ∀ i, ExecOk (s.execs i)) (i w : Nat) (t : Task)
-    (hm : (w, t) ∈ (s.execs i).held) :
+theorem InvC.finish (h : InvC cfg s) (hE : ∀ i, ExecOk (s.execs i)) (i w : Nat) (t : Task) (o : Outcome)
+    (cr : Nat → Carry) (hm : (w, t) ∈ (s.execs i).held) (ho : cfg.reset = .always → o = runInst cfg i t.entry) :
     InvC cfg { s with execs := upd s.execs i { s.execs i with
-        held := (s.execs i).held.erase (w, t), resultQ := (s.execs i).resultQ ++ [⟨t.id, runModel i t.entry⟩],
-        stopped := (s.execs i).stopped || decide (t.entry.kind = .fatal) } } := by
+        held := (s.execs i).held.erase (w, t), resultQ := (s.execs i).resultQ ++ [⟨t.id, o⟩],
+        stopped := (s.execs i).stopped || decide (t.entry.kind = .fatal), carry := cr } } := by
   obtain ⟨c, hc⟩ := mem_keys_iff.1 (((hE i).fl_keys _).1 (mem_inflight_held hm))
   obtain ⟨a1, a2, a3, a4, a5, a6, a7, a8, a9, a10, a11, a12, a13⟩ := h
   have hd : t.entry = entryOf cfg c := a7 i t c (Or.inr (List.mem_map.2 ⟨(w, t), hm, rfl⟩)) hc
@@ -449,10 +452,18 @@ theorem nodup_of_map_fst (l : List (Nat × Nat)) (h : (l.map (·.1)).Nodup) : l.
     simp only [List.map_cons, List.nodup_cons, List.mem_map] at h ⊢
     exact ⟨fun hx => h.1 ⟨x, hx, rfl⟩, ih h.2⟩
 
+theorem finalOf_error (c : Nat) (err : Err) : finalOf cfg c (.error err) = .error err := rfl
+
+theorem finalOf_of_none (c : Nat) (o : Outcome) (h : o.err? = none) : finalOf cfg c o = encode cfg c o := by
+  cases o <;> simp_all [finalOf, Outcome.err?]
+
+theorem eq_error_of_err? {o : Outcome} {err : Err} (h : o.err? = some err) : o = .error err := by
+  cases o <;> simp_all [Outcome.err?]
+
 /-- `Executor.run` resolves the pending future with an exception: the coroutine of `c` raises it -/
 theorem InvC.deliver_error (h : InvC cfg s) (hE : ∀ i, ExecOk (s.execs i)) (i c : Nat) (r : Result) (q : List Result)
     (err : Err) (hq : (s.execs i).resultQ = r :: q) (hm : (r.id, c) ∈ (s.execs i).pending)
-    (ho : r.out = .error err) :
+    (ho : r.out.err? = some err) :
     InvC cfg { answer s c (.error err) with
             execs := upd s.execs i { s.execs i with resultQ := q, pending := (s.execs i).pending.erase (r.id, c) } } := by
   obtain ⟨a1, a2, a3, a4, a5, a6, a7, a8, a9, a10, a11, a12, a13⟩ := h
@@ -460,16 +471,18 @@ theorem InvC.deliver_error (h : InvC cfg s) (hE : ∀ i, ExecOk (s.execs i)) (i 
   have her : ∀ x, x ∈ (s.execs i).pending.erase (r.id, c) ↔ x ≠ (r.id, c) ∧ x ∈ (s.execs i).pending :=
     fun x => hnd.mem_erase_iff
   have hph := a4 i _ c hm
-  have hout : Outcome.error err = expected cfg c := by
-    rw [(a5 i _ c hm).1, ← a8 i r c (by simp [hq]) hm, ho]; rfl
+  have hout : cfg.reset = .always → Outcome.error err = expected cfg c := by
+    intro hr
+    rw [(a5 i _ c hm).1, ← a8 hr i r c (by simp [hq]) hm, eq_error_of_err? ho]; rfl
+  have hdec : cfg.reset = .always ∨ cfg.reset ≠ .always := Decidable.em _
   constructor <;> simp only [answer, upd] <;> grind
 
 /-- `Executor.run` resolves the pending future with a value: the coroutine of `c` goes on to `respond` -/
 theorem InvC.deliver_value (h : InvC cfg s) (hE : ∀ i, ExecOk (s.execs i)) (i c : Nat) (r : Result) (q : List Result)
-    (vi vp : Nat) (hq : (s.execs i).resultQ = r :: q) (hm : (r.id, c) ∈ (s.execs i).pending)
-    (ho : r.out = .value vi vp) :
+    (hq : (s.execs i).resultQ = r :: q) (hm : (r.id, c) ∈ (s.execs i).pending)
+    (ho : r.out.err? = none) :
     InvC cfg { s with
-            phase := upd s.phase c (.responding (.value vi vp))
+            phase := upd s.phase c (.responding r.out)
             execs := upd s.execs i { s.execs i with resultQ := q, pending := (s.execs i).pending.erase (r.id, c) } } := by
   obtain ⟨a1, a2, a3, a4, a5, a6, a7, a8, a9, a10, a11, a12, a13⟩ := h
   have hnd : (s.execs i).pending.Nodup := nodup_of_map_fst _ (hE i).keys_nodup
@@ -477,8 +490,9 @@ theorem InvC.deliver_value (h : InvC cfg s) (hE : ∀ i, ExecOk (s.execs i)) (i 
     fun x => hnd.mem_erase_iff
   have hph := a4 i _ c hm
   have hlt : c < cfg.callers.length := a10 c (by rw [hph]; simp)
-  have hout : encode cfg c (.value vi vp) = expected cfg c := by
-    rw [(a5 i _ c hm).1, ← a8 i r c (by simp [hq]) hm, ho]; rfl
+  have hout : cfg.reset = .always → encode cfg c r.out = expected cfg c := by
+    intro hr
+    rw [(a5 i _ c hm).1, ← a8 hr i r c (by simp [hq]) hm, finalOf_of_none c r.out ho]
   constructor <;> simp only [upd] <;> grind
 
 theorem invD_step (a : Step) (h : InvD cfg s)
@@ -514,7 +528,7 @@ theorem invD_step (a : Step) (h : InvD cfg s)
     obtain ⟨t, ht, rfl⟩ := step_finish hs
     exact h.frame rfl rfl (fun c' => Or.inl rfl)
   | deliver i =>
-    obtain ⟨_, r, q, hq, ⟨hl, rfl⟩ | ⟨c, err, hl, _, rfl⟩ | ⟨c, vi, vp, hl, _, rfl⟩⟩ := step_deliver hs
+    obtain ⟨_, r, q, hq, ⟨hl, rfl⟩ | ⟨c, err, hl, _, rfl⟩ | ⟨c, hl, _, rfl⟩⟩ := step_deliver hs
     · exact h.frame rfl rfl (fun c' => Or.inl rfl)
     · have hf := hC i _ c (lookup_mem hl)
       refine h.frame rfl rfl (fun c' => ?_)
@@ -544,6 +558,7 @@ theorem invD_step (a : Step) (h : InvD cfg s)
     · constructor <;> simp only [answer, upd] <;> grind [critical]
 
 theorem invC_step (a : Step) (h : InvC cfg s) (hE : ∀ i, ExecOk (s.execs i)) (hD : InvD cfg s)
+    (hW : cfg.reset = .always → ∀ i w, ((s.execs i).carry w).queue = [])
     (hs : step cfg s a = some s') : InvC cfg s' := by
   cases a with
   | arrive c =>
@@ -572,36 +587,88 @@ theorem invC_step (a : Step) (h : InvC cfg s) (hE : ∀ i, ExecOk (s.execs i)) (
   | submit c =>
     obtain ⟨hp, hb, ⟨hst, rfl⟩ | ⟨_, rfl⟩⟩ := step_submit hs
     · refine h.answered c _ rfl rfl rfl (by simp [hp]) (by simp [hp]) (h.arrived_lt c (by simp [hp])) ?_
-      exact Or.inr (Or.inr ⟨rfl, h.stop_fatal _ hst⟩)
+      exact Or.inr (Or.inr (Or.inl ⟨rfl, h.stop_fatal _ hst⟩))
     · exact h.submit hE c hp hb (hD.res_known c hp)
   | take i w =>
     obtain ⟨hw, _, _, t, q, hq, rfl⟩ := step_take hs
     exact h.take i w t q hq (by assumption)
   | finish i w =>
     obtain ⟨t, ht, rfl⟩ := step_finish hs
-    exact h.finish hE i w t (lookup_mem ht)
+    exact h.finish hE i w t _ _ (lookup_mem ht)
+      (fun hr => workerCall_clean _ _ _ _ _ (hW hr i w))
   | deliver i =>
-    obtain ⟨_, r, q, hq, ⟨hl, rfl⟩ | ⟨c, err, hl, ho, rfl⟩ | ⟨c, vi, vp, hl, ho, rfl⟩⟩ := step_deliver hs
+    obtain ⟨_, r, q, hq, ⟨hl, rfl⟩ | ⟨c, err, hl, ho, rfl⟩ | ⟨c, hl, ho, rfl⟩⟩ := step_deliver hs
     · exfalso
       have : r.id ∈ inflight (s.execs i) := by simp [inflight, hq]
       exact lookup_none hl (((hE i).fl_keys _).1 this)
     · exact h.deliver_error hE i c r q err hq (lookup_mem hl) ho
-    · exact h.deliver_value hE i c r q vi vp hq (lookup_mem hl) ho
+    · exact h.deliver_value hE i c r q hq (lookup_mem hl) ho
   | respond c =>
     obtain ⟨o, hp, rfl⟩ := step_respond hs
     refine h.answered c _ rfl rfl rfl (by simp [hp]) (by simp [hp]) (h.arrived_lt c (by simp [hp])) ?_
-    exact Or.inl (h.resp_ok c o hp)
+    by_cases hr : cfg.reset = .always
+    · exact Or.inl (h.resp_ok hr c o hp)
+    · exact Or.inr (Or.inr (Or.inr hr))
 
 /-- the full invariant -/
 structure Inv (cfg : Config) (s : State) : Prop where
   e : ∀ i, ExecOk (s.execs i)
   d : InvD cfg s
   c : InvC cfg s
+  /-- group W: with the reset of the code that exists no worker carries a replica from one task to the next -/
+  w : cfg.reset = .always → ∀ i w, ((s.execs i).carry w).queue = []
 
-theorem Inv.init : Inv cfg Serving.init := ⟨fun _ => ExecOk.init, InvD.init, InvC.init⟩
+/-! ### group W: what the workers carry -/
+
+theorem invW_step (a : Step) (h : cfg.reset = .always → ∀ i w, ((s.execs i).carry w).queue = [])
+    (hs : step cfg s a = some s') : cfg.reset = .always → ∀ i w, ((s'.execs i).carry w).queue = [] := by
+  intro hr j v
+  have h0 := h hr
+  cases a with
+  | arrive c => obtain ⟨_, _, rfl⟩ := step_arrive hs; exact h0 j v
+  | desc c =>
+    rcases step_desc hs with ⟨_, _, _, rfl⟩ | ⟨_, _, _, rfl⟩ | ⟨_, rfl⟩ | ⟨_, _, rfl⟩ | ⟨_, _, rfl⟩ | ⟨_, _, _, rfl⟩ | ⟨_, _, _, rfl⟩
+      <;> exact h0 j v
+  | decodeFail c => obtain ⟨_, _, rfl⟩ := step_decodeFail hs; exact h0 j v
+  | submit c =>
+    obtain ⟨_, _, ⟨_, rfl⟩ | ⟨_, rfl⟩⟩ := step_submit hs
+    · exact h0 j v
+    · simp only [upd]; split
+      · rename_i hj; subst hj; exact h0 _ v
+      · exact h0 j v
+  | take i w =>
+    obtain ⟨_, _, _, t, q, hq, rfl⟩ := step_take hs
+    simp only [upd]; split
+    · rename_i hj; subst hj; exact h0 _ v
+    · exact h0 j v
+  | finish i w =>
+    obtain ⟨t, ht, rfl⟩ := step_finish hs
+    simp only [upd]; split
+    · rename_i hj; subst hj
+      by_cases hv : v = w
+      · subst hv
+        show Carry.queue (upd _ v _ v) = []
+        rw [upd_same, hr]; exact workerCall_always_queue _ _ _ _
+      · show Carry.queue (upd _ w _ v) = []
+        rw [upd_other _ _ _ _ hv]; exact h0 _ v
+    · exact h0 j v
+  | deliver i =>
+    obtain ⟨_, r, q, hq, ⟨hl, rfl⟩ | ⟨c, err, hl, _, rfl⟩ | ⟨c, hl, _, rfl⟩⟩ := step_deliver hs
+    · simp only [upd]; split
+      · rename_i hj; subst hj; exact h0 _ v
+      · exact h0 j v
+    · simp only [answer, upd]; split
+      · rename_i hj; subst hj; exact h0 _ v
+      · exact h0 j v
+    · simp only [upd]; split
+      · rename_i hj; subst hj; exact h0 _ v
+      · exact h0 j v
+  | respond c => obtain ⟨_, _, rfl⟩ := step_respond hs; exact h0 j v
+
+theorem Inv.init : Inv cfg Serving.init := ⟨fun _ => ExecOk.init, InvD.init, InvC.init, fun _ _ _ => rfl⟩
 
 theorem Inv.step (a : Step) (h : Inv cfg s) (hs : step cfg s a = some s') : Inv cfg s' :=
-  ⟨execOk_step a h.e hs, invD_step a h.d h.c.pend_phase hs, invC_step a h.c h.e h.d hs⟩
+  ⟨execOk_step a h.e hs, invD_step a h.d h.c.pend_phase hs, invC_step a h.c h.e h.d h.w hs, invW_step a h.w hs⟩
 
 theorem Inv.run (sched : List Step) (h : Inv cfg s) (hs : run cfg s sched = some s') : Inv cfg s' := by
   induction sched generalizing s with
